@@ -38,8 +38,9 @@ const (
 	pAssignable // Type a assignable to Type b (keys)
 	pConvertible
 	pComparable
-	pDynType // interface x has dynamic type T
-	pNonZero // integer != 0
+	pDynType   // interface x has dynamic type T
+	pNonZero   // integer != 0
+	pNotNilPtr // reflect.Value is not a nil pointer: its kind is not Ptr, or it is not nil (Indirect yields a valid Value)
 )
 
 type pred struct {
@@ -631,6 +632,13 @@ func (lg *ledger) implies(f edgeFact, p pred) bool {
 		if ks, ok := lg.kindFact(cond, truth, p.v, true); ok && ks&^p.kinds == 0 {
 			return true
 		}
+	case pNotNilPtr:
+		if recv, _, ok := reflectValueCall(cond, "IsNil"); ok && same(recv, p.v) && !truth {
+			return true
+		}
+		if ks, ok := lg.kindFact(cond, truth, p.v, false); ok && ks&(1<<kPtr) == 0 {
+			return true
+		}
 	case pNotNilValue:
 		if recv, _, ok := reflectValueCall(cond, "IsNil"); ok && same(recv, p.v) {
 			return !truth
@@ -909,6 +917,23 @@ func (lg *ledger) proveStep(p pred, at *ssa.BasicBlock, ctx *proofCtx) (bool, st
 	}
 	if why := lg.byEnclosing(p, ctx); why != "" {
 		return true, why
+	}
+	// a guard that is a conjunction / disjunction computed into a bool (a && b tested as one value): the
+	// predicate holds if it holds under each of the alternatives that give the guard its known value
+	if len(ctx.extra) == 0 && ctx.depth < 12 {
+		if alts := disjunctiveFacts(at); len(alts) > 1 {
+			all := true
+			for _, fs := range alts {
+				ctx2 := &proofCtx{visited: map[string]bool{}, done: map[string]string{}, failed: map[string]bool{}, nilPhis: ctx.nilPhis, extra: fs, depth: ctx.depth + 1}
+				if ok, _ := lg.proveIn(p, at, ctx2); !ok {
+					all = false
+					break
+				}
+			}
+			if all {
+				return true, "under each alternative of the dominating guard"
+			}
+		}
 	}
 	switch len(at.Preds) {
 	case 0:
@@ -1269,6 +1294,14 @@ func (lg *ledger) byConstruction(p pred, at *ssa.BasicBlock, ctx *proofCtx) stri
 		for _, n := range []string{"Index", "Field", "Slice", "Convert", "Addr", "FieldByIndex"} {
 			if _, _, ok := reflectValueCall(v, n); ok {
 				return "result of " + n + " is valid"
+			}
+		}
+		// Indirect(x): x itself unless x is a pointer, then what it points to - valid when x is valid and not a nil pointer
+		if args, ok := reflectFunc(v, "Indirect"); ok && len(args) == 1 {
+			if ok1, why1 := lg.proveIn(pred{kind: pValid, v: args[0]}, at, ctx); ok1 {
+				if ok2, why2 := lg.proveIn(pred{kind: pNotNilPtr, v: args[0]}, at, ctx); ok2 {
+					return "Indirect of a valid Value that is not a nil pointer (" + why1 + "; " + why2 + ")"
+				}
 			}
 		}
 		if recv, _, ok := reflectValueCall(v, "Elem"); ok {
